@@ -65,7 +65,7 @@ def cases(tier, seed):
     return out
 
 
-def _cfg(case, base, strategy=None, cinit=False):
+def _cfg(case, base, strategy=None, cinit=False, tc_ulp_seed=None):
     problem = {"name": "poly", "field": case["field"], "inits": case["inits"], "t0": case["t0"]}
     nu = case["nu"]
     diffuse = 0
@@ -73,7 +73,7 @@ def _cfg(case, base, strategy=None, cinit=False):
         diffuse = nu  # only u0 is given; derivatives diffuse, fixed by the initial-constraint update
     return configs.build(fact=case["fact"], strategy=strategy or case["strategy"], cal=case["cal"], ts=case["ts"], nu=nu, problem=problem,
                          base_scale=base, correct_underconfidence=case["correct"], relinearize=case["relin"], diffuse=diffuse,
-                         constraint_init=cinit)
+                         constraint_init=cinit, tc_ulp_seed=tc_ulp_seed)
 
 
 def _record(cfg, save_at, case, clip=False):
@@ -226,7 +226,7 @@ def _compare_runs(a, b, c, cal, d, n, tol, tags, viols, obs, what, times, base, 
 def _compare_with_measured_conditioning(e1, e2, c, cal, d, n, tol, tags, viols, obs, what, times, base, rerun):
     """Non-dyadic factors change every rounding. If the tight tolerance fails, the base run is repeated with the base
     scale moved by one unit roundoff (``rerun(factor)``): the change between those two runs of the *same* model is the
-    rounding amplification of this solve, and the tolerance becomes tol + 20 x that change."""
+    rounding amplification of this solve, and the tolerance becomes tol + util.COND_FACTOR x that change."""
     tv, to = [], {}
     _compare_runs(e1, e2, c, cal, d, n, tol, tags, tv, to, what, times, base)
     if tv and tv[0]["suboracle"] in ("scale_equivariance_values", "scale_equivariance_scale"):
@@ -238,7 +238,7 @@ def _compare_with_measured_conditioning(e1, e2, c, cal, d, n, tol, tags, viols, 
             sens = max([v for k, v in po.items() if k.startswith("max_equiv")] + [0.0])
             obs["conditioning_measured"] = obs.get("conditioning_measured", 0) + 1
             obs["max_measured_sensitivity"] = max(obs.get("max_measured_sensitivity", 0.0), sens)
-            tol = tol + 20.0 * sens
+            tol = tol + util.COND_FACTOR * sens
     _compare_runs(e1, e2, c, cal, d, n, tol, tags, viols, obs, what, times, base)
 
 
@@ -290,7 +290,7 @@ def _run_equiv(case):
         if float(np.nanmax(np.abs(np.nan_to_num(np.asarray(s1.u.mean_flat), nan=1e300)))) > 1e4:
             return {"violations": [], "obs": {"cases": 1, "exploded_or_short_skipped": 1}, "sigs": []}
         def rerun_fixed(factor):
-            cf = _cfg(case, case["base"] * factor)
+            cf = _cfg(case, case["base"] * factor, tc_ulp_seed=case["seedc"])
             return _extract(jax.jit(ivpsolve.solve_fixed_grid(solver=cf["solver"]))(cf["prior"], grid=jnp.asarray(grid)), len(grid))
 
         cmp = _compare_runs if case["dyadic"] else (lambda *a: _compare_with_measured_conditioning(*a, rerun_fixed))
@@ -339,7 +339,7 @@ def _run_equiv(case):
         if not viols:
             def rerun_adaptive(factor):
                 try:
-                    s3, _st3, at3 = _record(_cfg(case, case["base"] * factor), pts, case)
+                    s3, _st3, at3 = _record(_cfg(case, case["base"] * factor, tc_ulp_seed=case["seedc"]), pts, case)
                 except record.BudgetExceeded:
                     return None
                 if len(at3) != len(at1):
